@@ -351,7 +351,23 @@ func checkGuards(r *Reporter, p *Prog, rule string, rows []GuardRow) {
 								case *ast.GoStmt:
 									escapes[mk] = "started with go at " + p.posStr(x.Pos())
 								case *ast.DeferStmt:
-									escapes[mk] = "deferred at " + p.posStr(x.Pos())
+									// a deferred helper runs at the exit of this function, before every defer
+									// registered earlier: a lock held at the defer statement is still held then,
+									// unless this function also releases it explicitly later on
+									explicit := false
+									ast.Inspect(fd.Body, func(m ast.Node) bool {
+										if es, ok := m.(*ast.ExprStmt); ok && es.Pos() > x.Pos() {
+											if c2, ok := es.X.(*ast.CallExpr); ok {
+												if op, _ := lockOp(info, c2); op == "Unlock" || op == "RUnlock" {
+													explicit = true
+												}
+											}
+										}
+										return true
+									})
+									if explicit {
+										escapes[mk] = "deferred at " + p.posStr(x.Pos()) + " in a function that unlocks explicitly afterwards"
+									}
 								}
 							}
 						}
